@@ -1,12 +1,508 @@
-"""C12: structural clauses (see DESIGN.md section 4)."""
+"""C12 data-directory validation: typestate on _info_and_validate (G10), tolerance normal forms
+(G12), entry points (G1/G7), sos/eos insertion and stripping (G16)."""
 from __future__ import annotations
 
+import ast
+from typing import Dict, List, Optional, Set, Tuple
+
 from rules import fwd as R_fwd
+from sa.astutil import assigned_names, call_name, guards_of, names_in, parent_map, u
+from sa.defuse import ReachingDefs
+from sa.model import AnalysisError, own_calls, own_nodes
+from sa.norm import Normalizer, cmp_norm
+from sa.paths import Decision, Event, PathEnumerator
+from sa.resolve import bind_args
 from .common import Ctx, plumbing
+
+MOD = "_datasets"
+KINDS = ("feat", "ali", "ref")
+
+
+def _find_flag(f) -> str:
+    """The repair flag: the boolean Name tested immediately before torch.save."""
+    cands = {}
+    for n in own_nodes(f.node):
+        if isinstance(n, ast.If) and isinstance(n.test, ast.Name):
+            if any(isinstance(s, ast.Expr) and isinstance(s.value, ast.Call) and call_name(s.value) == "torch.save"
+                   for s in n.body):
+                cands[n.test.id] = cands.get(n.test.id, 0) + 1
+    if len(cands) != 1:
+        raise AnalysisError(f"C12: repair flag not identified (candidates {cands})")
+    return next(iter(cands))
 
 
 def run(ctx: Ctx):
-    plumbing(ctx, 'S1')
-    R_fwd.g7_cli(ctx.pkg, ctx.res, ctx.col, clause='S5', only={'get_torch_spect_data_dir_info'})
-    ctx.col.floor('g7_commands', ctx.col.counts.get('g7_commands', 0), 1)
-    return dict(explanation='plumbing clauses only (work in progress)', decided=['S1'], not_decided=[])
+    col, pkg, res = ctx.col, ctx.pkg, ctx.res
+    rel = pkg.module(MOD).relname
+    f = pkg.func(f"{MOD}::_info_and_validate")
+    where = f"{rel}::_info_and_validate"
+    pm = parent_map(f.node)
+    rd = ReachingDefs(f.node)
+    flag = _find_flag(f)
+    loops = [s for s in f.node.body if isinstance(s, ast.For)]
+    if not loops:
+        raise AnalysisError("C12: per-utterance loop not found")
+    loop = loops[0]
+    # tensors by slot of get_utterance_tuple
+    kindvar: Dict[str, str] = {}
+    for n in own_nodes(f.node):
+        if isinstance(n, ast.Assign) and isinstance(n.targets[0], ast.Tuple) and isinstance(n.value, ast.Call) \
+                and isinstance(n.value.func, ast.Attribute) and n.value.func.attr == "get_utterance_tuple":
+            names = [t.id for t in n.targets[0].elts if isinstance(t, ast.Name)]
+            if len(names) == 3:
+                kindvar = dict(zip(KINDS, names))
+    if not kindvar:
+        raise AnalysisError("C12: (feat, ali, ref) = data_set.get_utterance_tuple(idx) not found")
+    var2kind = {v: k for k, v in kindvar.items()}
+    fixp = f.param("fix")
+    if fixp is None:
+        raise AnalysisError("C12: _info_and_validate has no `fix` parameter")
+
+    # ---- S1 no repair without permission ---------------------------------------------------
+    sets = [n for n in own_nodes(f.node) if isinstance(n, ast.Assign) and len(n.targets) == 1
+            and isinstance(n.targets[0], ast.Name) and n.targets[0].id == flag
+            and isinstance(n.value, ast.Constant) and n.value.value is True]
+    col.floor("repair_flag_sets", len(sets), 6)
+    for s in sets:
+        gs = guards_of(pm, s)
+        ok = any(pol and _has_conjunct(t, "fix is not None") for t, pol in gs)
+        col.ob("G10", "S1", f"{where}::repair@[{_guard_key(gs)}]::needs-fix-permission", ok,
+               f"a repair is scheduled (`{flag} = True`) on a branch not guarded by `fix is not None`: the "
+               f"directory would be modified by a plain validation", rel, s.lineno,
+               sample=dict(guards=[(u(t)[:60], pol) for t, pol in gs]))
+        # the mutation that accompanies the flag must also be inside the permission
+    # any in-place mutation / rebinding of the tensors under validate must be in a permitted branch
+    nmut = 0
+    for n in own_nodes(f.node):
+        if isinstance(n, ast.Assign) and len(n.targets) == 1:
+            t = n.targets[0]
+            root = t
+            while isinstance(root, (ast.Subscript, ast.Attribute)):
+                root = root.value
+            if isinstance(root, ast.Name) and (root.id in var2kind or root.id == "r") and n.lineno > loop.lineno:
+                gs = guards_of(pm, n)
+                under_validate = any(pol and u(tt) == "validate" for tt, pol in gs)
+                if not under_validate:
+                    continue
+                nmut += 1
+                ok = any(pol and _has_conjunct(tt, "fix is not None") for tt, pol in gs)
+                col.ob("G10", "S1", f"{where}::mutation({u(t)})::needs-fix-permission", ok,
+                       f"`{u(n)}` changes a stored tensor during validation outside a `fix is not None` branch",
+                       rel, n.lineno, sample=u(n))
+    col.floor("validated_mutations", nmut, 6)
+
+    # ---- S2 / S3 typestate over the per-utterance body ---------------------------------------
+    def ev(n):
+        if isinstance(n, ast.Assign) and len(n.targets) == 1 and isinstance(n.targets[0], ast.Name):
+            t = n.targets[0].id
+            if t == flag and isinstance(n.value, ast.Constant):
+                return "FLAG+" if n.value.value is True else "FLAG-"
+            if t == "msg":
+                return "MSG"
+        if isinstance(n, ast.Call) and call_name(n) == "torch.save" and n.args:
+            return "SAVE:" + u(n.args[0]) + ":" + _dir_kind(n, rd)
+        if isinstance(n, ast.Raise):
+            return "RAISE"
+        if isinstance(n, ast.Delete):
+            return "DEL:" + ",".join(u(t) for t in n.targets)
+        if isinstance(n, ast.If) and False:
+            return None
+        return None
+
+    pe = PathEnumerator(ev, loop_iters=(0, 1), exc_edges=False)
+    paths = pe.paths(loop.body)
+    col.floor("per_utterance_paths", len(paths), 1000)
+    sigs = {}
+    for p in paths:
+        sigs.setdefault(tuple(p.labels()) + (p.exit,), p)
+    col.count("per_utterance_event_signatures", len(sigs))
+    bad_s2 = bad_s3 = None
+    n_flag_paths = 0
+    for sig, p in sigs.items():
+        labs = list(sig[:-1])
+        # section of each event: by DEL markers
+        sect = "feat"
+        pending_msg = False
+        pending_flag = False
+        for i, l in enumerate(labs):
+            if l == "MSG":
+                if pending_msg and bad_s2 is None:
+                    bad_s2 = (p, "a detected defect is followed by another detection without raise or repair")
+                pending_msg = True
+            elif l == "FLAG+":
+                pending_msg = False
+                pending_flag = True
+                n_flag_paths += 1
+            elif l == "RAISE":
+                pending_msg = False
+                pending_flag = False
+            elif l.startswith("SAVE:"):
+                _, v, dk = l.split(":")
+                if pending_flag:
+                    if var2kind.get(v) != sect or dk != sect:
+                        if bad_s3 is None:
+                            bad_s3 = (p, f"repaired {sect} tensor is written back as `{v}` into the {dk} sub-directory")
+                    pending_flag = False
+                else:
+                    if bad_s3 is None:
+                        bad_s3 = (p, f"`{v}` is saved although no repair was scheduled")
+            elif l == "FLAG-":
+                if pending_flag and i > 0 and bad_s3 is None:
+                    bad_s3 = (p, f"the repair flag is cleared in the {sect} section before the repaired tensor is saved")
+                pending_flag = False
+            elif l.startswith("DEL:"):
+                v = l[4:]
+                if pending_flag and bad_s3 is None:
+                    bad_s3 = (p, f"`{v}` is deleted with a repair still pending (never written back)")
+                if pending_msg and bad_s2 is None:
+                    bad_s2 = (p, f"a defect message in the {sect} section is neither raised nor repaired")
+                k = var2kind.get(v)
+                if k == "feat":
+                    sect = "ali"
+                elif k == "ali":
+                    sect = "ref"
+        if sig[-1] != "raise":
+            if pending_flag and bad_s3 is None:
+                bad_s3 = (p, "the iteration ends with a repair pending (never written back)")
+            if pending_msg and bad_s2 is None:
+                bad_s2 = (p, "a detected defect is silently ignored (no raise, no repair)")
+    # S2: every permission-gated repair branch has an `else` all of whose paths raise (a defect that may
+    # not be repaired is raised, never silently accepted)
+    nrep = 0
+    for n in own_nodes(f.node):
+        if isinstance(n, ast.If) and _has_conjunct(n.test, "fix is not None") and n.lineno > loop.lineno:
+            nrep += 1
+            pe2 = PathEnumerator(lambda x: "RAISE" if isinstance(x, ast.Raise) else None, exc_edges=False)
+            eps = pe2.paths(n.orelse) if n.orelse else []
+            ok = bool(eps) and all(p.exit == "raise" for p in eps)
+            col.ob("G10", "S2", f"{where}::repair-or-raise@[{_guard_key(guards_of(pm, n) + [(n.test, True)])}]", ok,
+                   f"the defect handled at `if {u(n.test)[:70]}` is silently accepted when it may not be repaired "
+                   f"(no `else: raise`)", rel, n.lineno, sample=u(n.test)[:100])
+    col.floor("repair_or_raise_sites", nrep, 6)
+    col.ob("G10", "S3", f"{where}::repairs-are-written-back", bad_s3 is None,
+           (bad_s3[1] + ": " + " ".join(bad_s3[0].labels())) if bad_s3 else "", rel, f.line,
+           sample=dict(paths=len(paths), signatures=len(sigs)))
+    # every defect message is defined under `validate`
+    # save sites: one per kind, each `torch.save(<kind var>, join(<dir of kind>, fn))`
+    saves = [c for c in own_calls(f.node) if call_name(c) == "torch.save"]
+    kinds_saved = set()
+    for c in saves:
+        v = u(c.args[0])
+        dk = _dir_kind(c, rd)
+        kinds_saved.add(var2kind.get(v))
+        okfn = False
+        if len(c.args) > 1 and isinstance(c.args[1], ast.Call) and call_name(c.args[1]) == "os.path.join" \
+                and len(c.args[1].args) == 2:
+            fnexpr = c.args[1].args[1]
+            der = rd.derives(fnexpr)
+            txt = " ".join(u(e) for e in der.exprs)
+            okfn = "file_prefix" in txt and "file_suffix" in txt and "utt_ids" in txt
+        col.ob("G10", "S3", f"{where}::save({v})->dir({dk})", var2kind.get(v) == dk and okfn,
+               f"`{u(c)}` writes the {var2kind.get(v)} tensor into the {dk} sub-directory / not under "
+               f"prefix+utt_id+suffix", rel, c.lineno, sample=u(c))
+    col.ob("G10", "S3", f"{where}::every-kind-has-write-back", kinds_saved == set(KINDS),
+           f"write-back exists for {sorted(k for k in kinds_saved if k)} only", rel, f.line)
+
+    # ---- S4 tolerance normal forms -----------------------------------------------------------
+    _s4(ctx, f, pm, rd, kindvar, where, rel)
+
+    # ---- S5 entry points ------------------------------------------------------------------------
+    v = pkg.func(f"{MOD}::validate_spect_data_set")
+    calls = [c for c in own_calls(v.node) if call_name(c) == "_info_and_validate"]
+    col.floor("validate_entry_calls", len(calls), 1)
+    for c in calls:
+        b = bind_args(c, f, False)
+        got = {p.name: u(a) for p, a, _ in b.pairs}
+        ok = got == {"data_set": "data_set", "info": "False", "validate": "True", "fix": "fix"}
+        col.ob("G1", "S5", f"{rel}::validate_spect_data_set::_info_and_validate-binding", ok,
+               f"validate_spect_data_set calls _info_and_validate with {got}", rel, c.lineno, sample=got)
+    cli = pkg.func("command_line::get_torch_spect_data_dir_info")
+    calls = [c for c in own_calls(cli.node) if call_name(c) == "_info_and_validate"]
+    col.floor("cli_entry_calls", len(calls), 1)
+    for c in calls:
+        b = bind_args(c, f, False)
+        got = {p.name: a for p, a, _ in b.pairs}
+        va = got.get("validate")
+        parts = set()
+        if isinstance(va, ast.BoolOp) and isinstance(va.op, ast.Or):
+            parts = {u(x) for x in va.values}
+        ok = parts == {"options.strict", "options.fix is not None"} and u(got.get("info")) == "True" \
+            and u(got.get("fix")) == "options.fix"
+        col.ob("G1", "S5", "command_line.py::get_torch_spect_data_dir_info::_info_and_validate-binding", ok,
+               f"the command validates iff `{u(va)}`; expected --strict or --fix given "
+               f"(options.strict or options.fix is not None), fix=options.fix", "command_line.py", c.lineno,
+               sample={k: u(a) for k, a in got.items()})
+    R_fwd.g7_cli(pkg, res, col, clause="S5", only={"get_torch_spect_data_dir_info"})
+    col.floor("g7_commands", col.counts.get("g7_commands", 0), 1)
+
+    # ---- S6 sos / eos insertion and stripping -------------------------------------------------
+    _s6(ctx, rel)
+    plumbing(ctx, "S7")
+    return dict(
+        explanation=(
+            "Decides for C12: (S1) every scheduled repair and every mutation of a stored tensor during validation "
+            "lies under `fix is not None`; (S2) on every path of the per-utterance body (loops unrolled 0/1) a "
+            "detected defect is raised or repaired before the next detection / end of its section; (S3) every "
+            "scheduled repair reaches torch.save of the same kind's tensor into the same kind's sub-directory under "
+            "prefix+utt+suffix before the flag is cleared, the tensor deleted or the iteration ends; (S4) the crop "
+            "tolerances normalise to 0 < len(ali)-T <= fix and r_end-T <= fix & r_start <= T; (S5) entry points bind "
+            "(info, validate, fix) correctly, the CLI validates iff --strict or --fix was given; (S6) sos/eos rows "
+            "are built without indexing dimension 0 of a possibly empty transcript, sos in front / eos behind, "
+            "write_hyp strips after the last sos and before the first eos; (S7) prefix/suffix kinds. NOT decided: "
+            "the iff of acceptance over all directories, idempotence of fix, the statistics recount."),
+        decided=["S1", "S2", "S3", "S4", "S5", "S6", "S7"],
+        not_decided=["acceptance iff documented conditions", "fix idempotence over all defect combinations",
+                     "statistics recount"],
+        assumptions=["torch.save/torch.load semantics", "loops unrolled 0/1 iterations represent all iterations "
+                     "for the flag protocol (the flag is only set, never cleared, inside the token loop)"],
+    )
+
+
+def _has_conjunct(t: ast.expr, text: str) -> bool:
+    if u(t) == text:
+        return True
+    if isinstance(t, ast.BoolOp) and isinstance(t.op, ast.And):
+        return any(_has_conjunct(v, text) for v in t.values)
+    return False
+
+
+def _guard_key(gs) -> str:
+    out = []
+    for t, pol in gs[-2:]:
+        s = u(t)
+        out.append(("" if pol else "!") + (s if len(s) < 50 else s[:47] + "..."))
+    return " > ".join(out)
+
+
+def _dir_kind(save_call: ast.Call, rd: ReachingDefs) -> str:
+    if len(save_call.args) < 2:
+        return "?"
+    der = rd.derives(save_call.args[1])
+    kinds = set()
+    for n in der.nodes():
+        if isinstance(n, ast.Attribute) and n.attr.endswith("_subdir"):
+            kinds.add(n.attr[: -len("_subdir")])
+    return kinds.pop() if len(kinds) == 1 else "?" + ",".join(sorted(kinds))
+
+
+def _s4(ctx, f, pm, rd, kindvar, where, rel):
+    col = ctx.col
+    ali, ref = kindvar["ali"], kindvar["ref"]
+
+    def ren(s: str) -> str:
+        for a in (f"{ali}.shape[0]", f"{ali}.size(0)", f"len({ali})"):
+            s = s.replace(a, "LEN_ALI")
+        return s
+
+    crops = []
+    for n in own_nodes(f.node):
+        # ali = ali[:T]
+        if isinstance(n, ast.Assign) and len(n.targets) == 1 and u(n.targets[0]) == ali \
+                and isinstance(n.value, ast.Subscript) and u(n.value.value) == ali and isinstance(n.value.slice, ast.Slice):
+            crops.append(("ali", n))
+        # r[2] = T
+        if isinstance(n, ast.Assign) and len(n.targets) == 1 and isinstance(n.targets[0], ast.Subscript) \
+                and u(n.targets[0].slice) == "2" and u(n.value) == "T":
+            crops.append(("ref", n))
+    col.floor("crop_sites", len(crops), 2)
+    for kind, n in crops:
+        gs = guards_of(pm, n)
+        t, pol = gs[-1]
+        conj = t.values if isinstance(t, ast.BoolOp) and isinstance(t.op, ast.And) else [t]
+        got = set()
+        subst = {}
+        for d in rd.defs:
+            if d.kind == "assign" and d.name == "Tp" and d.value is not None:
+                subst["Tp"] = d.value
+        nz = Normalizer(rename=ren, subst=subst)
+        for cj in conj:
+            if isinstance(cj, ast.Compare) and u(cj) != "fix is not None":
+                left = cj.left
+                for op, right in zip(cj.ops, cj.comparators):
+                    got.add(cmp_norm(left, op, right, nz))
+                    left = right
+        if kind == "ali":
+            exp_src = ["LEN_ALI - T <= fix", "LEN_ALI - T > 0"]
+            if n.value.slice.upper is None or u(n.value.slice.upper) != "T" or n.value.slice.lower is not None:
+                col.ob("G12", "S4", f"{where}::ali-crop-to-T", False,
+                       f"the alignment is cropped with `{u(n.value)}`, expected the first T frames", rel, n.lineno)
+        else:
+            rv = u(n.targets[0].value)
+            exp_src = [f"{rv}[2] - T <= fix", f"{rv}[1] <= T"]
+        want = set()
+        for s_ in exp_src:
+            c = ast.parse(s_, mode="eval").body
+            want.add(cmp_norm(c.left, c.ops[0], c.comparators[0], Normalizer()))
+        col.ob("G12", "S4", f"{where}::{kind}-crop-tolerance", got == want and pol,
+               f"the {kind} crop is permitted under {sorted(got)}; documented tolerance is {sorted(want)} "
+               f"('by at most fix')", rel, n.lineno, sample=dict(got=sorted(got), want=sorted(want)))
+
+
+def _s6(ctx, rel):
+    col, pkg = ctx.col, ctx.pkg
+    f = pkg.func(f"{MOD}::_load_ref")
+    where = f"{rel}::_load_ref"
+    pm = parent_map(f.node)
+    rd = ReachingDefs(f.node)
+    cats = [c for c in own_calls(f.node) if call_name(c) == "torch.cat" and c.args and isinstance(c.args[0], (ast.List, ast.Tuple))]
+    col.floor("load_ref_cat_sites", len(cats), 4)
+    seen = set()
+    for c in cats:
+        gs = guards_of(pm, c)
+        sym = None
+        for t, pol in gs:
+            s = u(t)
+            if s in ("sos is not None", "eos is not None") and pol:
+                sym = s[:3]
+        if sym is None:
+            continue
+        elts = c.args[0].elts
+        if len(elts) != 2:
+            continue
+        # which element is the transcript (the variable being re-assigned)?
+        st = pm.get(c)
+        tgt = u(st.targets[0]) if isinstance(st, ast.Assign) else None
+        pos = [i for i, e in enumerate(elts) if u(e) == tgt]
+        if len(pos) != 1:
+            col.ob("G16", "S6", f"{where}::{sym}-cat-shape", False, f"`{u(c)}` does not concatenate a symbol row "
+                   f"with the transcript", rel, c.lineno)
+            continue
+        other = elts[1 - pos[0]]
+        dim2 = any(u(t) == "D == 2" and pol for t, pol in gs)
+        key = f"{sym}-{'2d' if dim2 else '1d'}"
+        seen.add(key)
+        want_pos = 1 if sym == "sos" else 0  # transcript position in the list
+        col.ob("G16", "S6", f"{where}::{key}::order", pos[0] == want_pos,
+               f"the {sym} symbol is concatenated on the wrong side of the transcript: `{u(c)}`", rel, c.lineno,
+               sample=u(c))
+        # the symbol row derives from the right symbol
+        der = rd.derives(other)
+        uses_sym = any(isinstance(n, ast.Name) and n.id == sym for n in der.nodes())
+        col.ob("G16", "S6", f"{where}::{key}::symbol", uses_sym,
+               f"the row inserted for {sym} does not carry `{sym}`", rel, c.lineno, sample=u(other))
+        # shape donor: must not index/slice dimension 0 of the transcript
+        donors = []
+        for n in der.nodes():
+            if isinstance(n, ast.Subscript) and isinstance(n.value, ast.Name) and n.value.id == tgt:
+                sl = n.slice
+                first = sl.elts[0] if isinstance(sl, ast.Tuple) else sl
+                if isinstance(first, ast.Constant) and first.value is Ellipsis:
+                    continue
+                donors.append(n)
+        guarded = any(("numel" in u(t) or "len(" in u(t) or "size(0)" in u(t) or "shape[0]" in u(t)) for t, pol in gs)
+        col.ob("G16", "S6", f"{where}::{key}::shape-donor", not donors or guarded,
+               f"the {sym} row takes its shape from `{u(donors[0]) if donors else ''}`, i.e. from dimension 0 of "
+               f"the transcript: an empty transcript yields an empty row (or IndexError) and gets no {sym}",
+               rel, c.lineno, sample=[u(d) for d in donors])
+    col.ob("G16", "S6", f"{where}::all-four-variants", seen == {"sos-1d", "sos-2d", "eos-1d", "eos-2d"},
+           f"sos/eos insertion variants found: {sorted(seen)}", rel, f.line)
+    # _write_hyp
+    w = pkg.func(f"{MOD}::_write_hyp")
+    where = f"{rel}::_write_hyp"
+    rdw = ReachingDefs(w.node)
+    pmw = parent_map(w.node)
+    found = {}
+    for n in own_nodes(w.node):
+        if isinstance(n, ast.Assign) and len(n.targets) == 1 and u(n.targets[0]) == "hyp" \
+                and isinstance(n.value, ast.Subscript) and isinstance(n.value.slice, ast.Slice):
+            gs = guards_of(pmw, n)
+            sym = next((u(t)[:3] for t, pol in gs if u(t) in ("sos is not None", "eos is not None") and pol), None)
+            if sym is None:
+                continue
+            sl = n.value.slice
+            bound = sl.lower if sym == "sos" else sl.upper
+            other = sl.upper if sym == "sos" else sl.lower
+            der = rdw.derives(bound, max_depth=0) if bound is not None else None
+            pick = None
+            uses = False
+            if der is not None:
+                for x in der.nodes():
+                    if isinstance(x, ast.Subscript) and isinstance(x.slice, (ast.Constant, ast.UnaryOp)) \
+                            and u(x.value).endswith("_idxs"):
+                        pick = u(x.slice)
+                for x in rdw.derives(bound, max_depth=3).nodes():
+                    if isinstance(x, ast.Name) and x.id == sym:
+                        uses = True
+            if sym == "sos":
+                idxname = [nm.id for nm in ast.walk(bound) if isinstance(nm, ast.Name)] if bound is not None else []
+                shape_ok = bound is not None and other is None and isinstance(bound, ast.BinOp) \
+                    and isinstance(bound.op, ast.Add) and u(bound.right) == "1"
+                ok = shape_ok and pick == "-1" and uses
+                msg = "hypotheses are not cut after the LAST start symbol (hyp[last_sos + 1:])"
+            else:
+                shape_ok = bound is not None and other is None and isinstance(bound, ast.Name)
+                ok = shape_ok and pick == "0" and uses
+                msg = "hypotheses are not cut before the FIRST end symbol (hyp[:first_eos])"
+            found[sym] = ok
+            col.ob("G16", "S6", f"{where}::strip-{sym}", ok, f"{msg}: `{u(n)}` (index pick {pick})", rel, n.lineno,
+                   sample=u(n))
+    col.ob("G16", "S6", f"{where}::strips-both", set(found) == {"sos", "eos"},
+           f"_write_hyp strips {sorted(found)}", rel, w.line)
+    # the public wrappers pass (sos, eos) in that order
+    for spec in ("_datasets::SpectDataSet.write_hyp", "_datasets::LangDataSet.write_hyp"):
+        m = pkg.func(spec)
+        for c in own_calls(m.node):
+            if call_name(c) == "_write_hyp":
+                b = bind_args(c, w, False)
+                got = {p.name: u(a) for p, a, _ in b.pairs}
+                ok = (got.get("sos") or "").endswith(".sos") and (got.get("eos") or "").endswith(".eos")
+                col.ob("G1", "S6", f"{rel}::{m.qualname}::_write_hyp(sos,eos)", ok,
+                       f"{m.qualname} strips with sos={got.get('sos')}, eos={got.get('eos')}", rel, c.lineno, sample=got)
+
+
+MANIFEST = dict(
+    level_text=(
+        "Static typestate analysis (no execution) of the per-utterance body of _info_and_validate over all "
+        "~10^4 syntactic paths (loops unrolled 0/1): repairs only with permission, detected => raised or repaired, "
+        "scheduled repairs written back to the right file before the flag is cleared; tolerance guards in "
+        "comparison normal form against the documented 'by at most fix'; entry-point bindings; construction of "
+        "the sos/eos rows independent of the transcript's first dimension; stripping after the last sos / before "
+        "the first eos. Necessary conditions of C12; the iff of acceptance over all directories is not decided."),
+    level_note="Trusted: python ast; torch.save persists the tensor passed. F6 (_load_ref on empty transcripts) and "
+               "F7 (--fix 0) were found by these rules and repaired by fix: commits.",
+    technique="static analysis: typestate over enumerated CFG paths, guard dominance, comparison normal forms, reaching definitions",
+    design_ref="DESIGN.md section 4 C12",
+)
+
+
+def _mutants():
+    from selftest.mutate import Mutant as M
+    D = "_datasets.py"
+    return [
+        M("repair-without-permission", D, "if fix is not None and T + fix >= ali.shape[0] > T:",
+          "if T + fix >= ali.shape[0] > T:", "needs-fix-permission"),
+        M("drop-else-raise", D,
+          "if fix is not None and r[1] <= T >= r[2] - fix:\n    warnings.warn(msg + '. Reducing upper bound')\n    r[2] = T\n    write_back = True\nelse:\n    raise ValueError(msg)",
+          "if fix is not None and r[1] <= T >= r[2] - fix:\n    warnings.warn(msg + '. Reducing upper bound')\n    r[2] = T\n    write_back = True",
+          "repair-or-raise"),
+        M("ali-writeback-dropped", D, "if write_back:\n    torch.save(ali, os.path.join(dir_, fn))\n    write_back = False",
+          "write_back = False", "G10/S3"),
+        M("ref-saved-into-ali-dir", D, "dir_ = os.path.join(data_set.data_dir, data_set.ref_subdir)",
+          "dir_ = os.path.join(data_set.data_dir, data_set.ali_subdir)", "G10/S3"),
+        M("save-wrong-tensor", D, "torch.save(ref, os.path.join(dir_, fn))", "torch.save(ali, os.path.join(dir_, fn))", "G10/S3"),
+        M("flag-cleared-before-save", D, "ali = ali[:T]\nwrite_back = True", "ali = ali[:T]\nwrite_back = False", "G10/S"),
+        M("tolerance-off-by-one", D, "T + fix >= ali.shape[0] > T", "T + fix > ali.shape[0] > T", "ali-crop-tolerance"),
+        M("ref-tolerance-ignores-fix", D, "r[1] <= T >= r[2] - fix", "r[1] <= T >= r[2] - 1", "ref-crop-tolerance"),
+        M("ref-tolerance-start-unchecked", D, "fix is not None and r[1] <= T >= r[2] - fix", "fix is not None and T >= r[2] - fix",
+          "ref-crop-tolerance"),
+        M("crop-keeps-tail", D, "ali = ali[:T]", "ali = ali[-T:]", "ali-crop"),
+        M("validate-entry-swapped", D, "_info_and_validate(data_set, False, True, fix)", "_info_and_validate(data_set, True, False, fix)",
+          "_info_and_validate-binding"),
+        M("cli-fix-truthiness", "command_line.py", "options.strict or options.fix is not None", "options.strict or options.fix",
+          "G"),
+        M("load-ref-shape-from-first-row", D, "ref.new_full((1,), sos)", "torch.full_like(ref[:1], sos)", "sos-1d::shape-donor"),
+        M("eos-in-front", D, "torch.cat([ref, ref.new_full((1,), eos)], 0)", "torch.cat([ref.new_full((1,), eos), ref], 0)",
+          "eos-1d::order"),
+        M("sos-row-carries-eos", D, "sos_sym[0] = sos", "sos_sym[0] = eos", "G16/S6"),
+        M("strip-first-sos", D, "sos_idx = sos_idxs[-1].item()", "sos_idx = sos_idxs[0].item()", "strip-sos"),
+        M("strip-last-eos", D, "eos_idx = eos_idxs[0].item()", "eos_idx = eos_idxs[-1].item()", "strip-eos"),
+        M("strip-keeps-sos", D, "hyp = hyp[sos_idx + 1:]", "hyp = hyp[sos_idx:]", "strip-sos"),
+        M("utts-suffix-as-prefix", D, "x.startswith(file_prefix) and x.endswith(file_suffix)",
+          "x.startswith(file_suffix) and x.endswith(file_suffix)", "G4/S7"),
+        M("twin:rename-flag", D, "write_back", "dirty", "", -1, twin=True),
+    ]
+
+
+def selftest(ctx: Ctx):
+    from selftest.mutate import run_selftest
+    return run_selftest("C12", ctx.pkg.repo, _mutants(), floor=16, jobs=12)
